@@ -87,19 +87,32 @@ theorem hostnameOK_shape {host w reduced : Str} {isW : Bool} (hf : HostForm host
         simp only [hstar]
         exact ⟨by simpa using hlw, hall⟩
 
-/-- `validateNames` without an empty name in the list checks every name -/
-theorem validateNames_nil_all {r : NameRole} {names : List Str} (hne : ∀ n ∈ names, n ≠ [])
+theorem validateName_body {r : NameRole} {n : Str} (h : validateName r n = true) :
+    n ≠ [] ∧ validateNameBody r n = true := by
+  unfold validateName at h
+  simp only [Bool.and_eq_true] at h
+  refine ⟨?_, h.2⟩
+  intro hn
+  subst hn
+  simp at h
+
+/-- `validateNames` reporting nothing means every name of the list passed (and none is empty) -/
+theorem validateNames_nil_all {r : NameRole} {names : List Str}
     (h : validateNames r names = []) : ∀ n ∈ names, validateName r n = true := by
   induction names with
   | nil => intro n hn; simp at hn
   | cons x xs ih =>
     unfold validateNames at h
     split at h
-    · rename_i hx
-      intro n hn
-      rcases List.mem_cons.mp hn with rfl | hn'
-      · exact hx
-      · exact ih (fun m hm => hne m (List.mem_cons_of_mem _ hm)) h n hn'
-    · exact absurd h (hne x List.mem_cons_self)
+    · exact absurd h (by decide)
+    · split at h
+      · rename_i hx
+        intro n hn
+        rcases List.mem_cons.mp hn with rfl | hn'
+        · exact hx
+        · exact ih h n hn'
+      · rename_i hne _
+        subst h
+        simp at hne
 
 end Obao.PKI
